@@ -33,6 +33,7 @@ class Shard(object):  # pylint: disable=too-few-public-methods,too-many-instance
     kind = attr.ib(default='symbolic')  # 'symbolic' | 'concrete' (side-condition evaluated natively)
     extra_pre = attr.ib(factory=list)   # additional `pre:` expressions (known-finding exclusions)
     allow_sites = attr.ib(factory=list)
+    group = attr.ib(default=None)       # evidence aggregation key for very large shard families
 
     @property
     def harness(self):
